@@ -93,17 +93,36 @@ S_QNAME = {q: st.sampled_from(NAMED_MORE[q]) for q in QUANT}
 S_SEED = st.integers(0, 2 ** 31 - 1)
 
 
+def orders_of(sub):
+    """every order in which the keywords of a choice can be passed; canonical (length, mass, time, energy, charge) first,
+    its reverse last"""
+    canon = tuple(q for q in QUANT if q in sub)
+    perms = [list(p) for p in itertools.permutations(canon)]
+    rev = list(reversed(canon))
+    if len(perms) > 1:
+        perms.remove(rev)
+        perms.append(rev)
+    return perms
+
+
+# reset_units(**choice) receives its keywords in a drawn order ('order' lists the quantities; the case is dumped with sorted
+# keys, so the order cannot live in the dict itself)
+S_ORDER = {sub: st.sampled_from(orders_of(sub)) for sub in SUBSETS}
+
+
 @st.composite
 def named_cfgs(draw):
     sub = draw(S_SUBSET)
-    return {'kind': 'named', 'units': {q: draw(S_QNAME[q]) for q in sub}}
+    return {'kind': 'named', 'units': {q: draw(S_QNAME[q]) for q in sub}, 'order': draw(S_ORDER[sub])}
 
 
+_DEFAULT_UNITS = {'length': 'angstrom', 'mass': 'amu', 'energy': 'eV', 'charge': 'e'}
 S_CFG = st.one_of(st.builds(lambda s: {'kind': 'seed', 'seed': s}, S_SEED),
                   st.builds(lambda s: {'kind': 'seed', 'seed': s}, S_SEED),
                   named_cfgs(), named_cfgs(),
                   st.just({'kind': 'SI'}),
-                  st.just({'kind': 'named', 'units': {'length': 'angstrom', 'mass': 'amu', 'energy': 'eV', 'charge': 'e'}}))
+                  st.builds(lambda o: {'kind': 'named', 'units': dict(_DEFAULT_UNITS), 'order': o},
+                            S_ORDER[('length', 'mass', 'energy', 'charge')]))
 S_CFG_NOT_SI = st.one_of(st.builds(lambda s: {'kind': 'seed', 'seed': s}, S_SEED), named_cfgs())
 
 
@@ -215,3 +234,28 @@ def invariance_cases(draw):
     cfgs = [draw(S_CFG), draw(S_CFG_NOT_SI), draw(S_CFG)]
     x = draw(st.one_of(scalars(), st.lists(S_F, min_size=1, max_size=4)))
     return {'A': A, 'B': B, 'wsA': draw(S_WS), 'wsB': draw(S_WS), 'cfgs': cfgs, 'x': x}
+
+
+# ----------------------------------------------------------------------------- histories of working-unit choices
+
+NBATTERY = 64                    # upper bound of the fixed battery in checks/c09.py (mask bits)
+S_HOP = st.sampled_from(['change'] * 6 + ['drop'] * 2 + ['add'] * 2 + ['reorder', 'seed', 'SI'])
+S_HQ = st.sampled_from([0, 1, 2, 3, 3, 4, 4, 4])          # index into QUANT; energy and charge weighted
+S_HMASK = st.one_of(st.just(-1), st.just(-1), st.integers(0, 2 ** NBATTERY - 1))
+S_HN = st.integers(2, 7)
+S_HNEXTRA = st.sampled_from([0, 1, 1, 2])
+S_HX = st.one_of(st.sampled_from([1.0, 2.5, -3.0, 7]), S_F.filter(lambda v: v != 0.0), st.lists(S_F, min_size=1, max_size=3))
+S_HSTART = st.one_of(named_cfgs(), named_cfgs(),
+                     st.builds(lambda o: {'kind': 'named', 'units': dict(_DEFAULT_UNITS), 'order': o},
+                               S_ORDER[('length', 'mass', 'energy', 'charge')]))
+
+
+@st.composite
+def history_cases(draw):
+    """a start choice and a list of steps; each step is resolved by the oracle against the choice then in force so that
+    consecutive named choices differ in exactly one quantity (changed name, dropped, added) - any sub-list is a valid walk"""
+    start = draw(S_HSTART)
+    steps = [{'op': draw(S_HOP), 'q': draw(S_HQ), 'name': draw(S_IDX), 'perm': draw(S_IDX), 'mask': draw(S_HMASK)}
+             for _ in range(draw(S_HN))]
+    extra = [{'ast': _expr(draw, 2, S_NAME_DIM), 'ws': draw(S_WS)} for _ in range(draw(S_HNEXTRA))]
+    return {'start': start, 'mask': draw(S_HMASK), 'steps': steps, 'extra': extra, 'x': draw(S_HX)}
